@@ -142,6 +142,10 @@ def build(history, schema=None, **schema_kw):
             w.delete_by_term("id", key)
             live.pop(key, None)
         w.commit(merge=False)
+    if (len(order) + len(history["deletes"])) % 2 == 1:
+        # every second index is re-opened from its storage, as a separate search process would do it: the schema (field
+        # types, analyzers, boosts, numeric encodings) then comes from the pickle in the TOC
+        ix = st.open_index()
     return Built(ix, live, order, tmpdir, alldocs)
 
 
